@@ -156,6 +156,26 @@ PROPS = {
              "went through at least one deletion. Distinct = hash of the decoded shape (names, link pattern) and operations.",
         assumptions=COMMON_ASSUME,
     ),
+    "C09": dict(
+        bin="h_tree", sub="c09", level="exploration",
+        technique="rapidcheck-generated files and call programs: ReadOnly session checked byte-for-byte and differentially against a ReadWrite twin (must-throw rule); mode matrix on present/absent paths; header defects injected with the HDF5 C API",
+        level_text="(a) a generated file is opened ReadOnly and 3-27 generated calls of every mutator kind are applied: after each call the "
+                   "snapshot and the bytes (whole file compared) are unchanged, and when the same call changes a ReadWrite byte copy of the "
+                   "file the ReadOnly call must have thrown; (b) ReadWrite on the existing file shows the prior snapshot, ReadWrite / "
+                   "Overwrite on an absent path and Overwrite on an existing file give an empty valid file (format, version, UUID id, no "
+                   "blocks/sections) that reopens, ReadOnly on an absent path throws and creates nothing; (c) 14 classes of header defects "
+                   "(format missing / wrong string / wrong type, version missing / wrong length / wrong type, id missing, combinations, plain "
+                   "HDF5, empty, text, truncated, signature + garbage): ReadOnly and ReadWrite open must throw, the refused ReadOnly open leaves "
+                   "the bytes alone, Overwrite still yields an empty valid file; both compression defaults",
+        level_note="must-throw is decided by the twin: a call that has no effect on a ReadWrite copy (setting the value already stored, "
+                   "removing something absent) carries no obligation; updated_at is not part of the snapshot but is part of the bytes",
+        quick=dict(cases=400, size=600, workers=16, timeout=1800),
+        thorough=dict(cases=8000, size=600, workers=16, timeout=14400),
+        rule="tape -> {session | modes | header defect}. Non-trivial: a ReadOnly session on a file with at least 6 entities in which at least "
+             "5 distinct kinds of effective mutators were refused; a mode case on a file with at least 4 entities; every header defect case. "
+             "Distinct = hash of the decoded case.",
+        assumptions=COMMON_ASSUME,
+    ),
     "C08": dict(
         bin="h_tree", sub="c08", level="exploration",
         technique="rapidcheck-generated API programs with invalid arguments; complete observable state (snapshot) compared before/after every call that threw",
